@@ -40,6 +40,21 @@ PROPS = {
         "explanation": "C10_flush: every destination state after a completed call of write_to_file is a consistent snapshot of the old or the new "
                        "image; counterexample theorem for the pre-repair order.",
     },
+    "C13": {
+        "rule": "generated /proc/<pid>/maps texts (paths, pseudo names, none, ' (deleted)', spaces, [stack:N], /SYSVxxxxxxxx, all permission "
+                "strings, contiguity/gap patterns, shared-library shaped groups with the linker's reserved gaps, offsets equal to the previous end) "
+                "parsed by procfs-core and aggregated by the real MappingInfo::aggregate with a vDSO address that hits / misses a line; plus all "
+                "sequences of ≤ 3 (quick) / ≤ 4 (thorough) lines over a 10-line alphabet × gap bits. Non-trivial = at least one merge rule fires; "
+                "distinct = distinct (gate?, rule sequence, per-line (perms, name length)).",
+        "expected_tags": ["rule1", "rule2", "rule3", "push", "gate.renamed"],
+        "trusted_base": ["procfs-core's maps line parser (the harness feeds the parsed entries to the model)"],
+        "assumptions": ["well-formed memory map: non-empty ranges, ascending, non-overlapping (what the kernel reports)",
+                        "'executable file mapping' in the third merge reason is read as 'file (path) mapping', which is what the code and Breakpad test"],
+        "explanation": "C13 theorems over the Lean model of MappingInfo::aggregate (ghost-instrumented fold with an invariant proved by induction over "
+                       "the lines): block decomposition / hull / admissible merge reasons, order and disjointness, cover and uniqueness, linux-gate "
+                       "naming, system range inside the hull; the model is compared with the real aggregate on every generated map and the same "
+                       "decidable predicates are evaluated on the implementation's output.",
+    },
 }
 
 NOT_APPLICABLE = {}
